@@ -8,6 +8,14 @@ def dag_iter(n, e0=False, e1=False, e2=False, e3=False, e4=False, e5=False, e6=F
     """Every DAG on n nodes added in index order (edge bit per pair i<j)."""
     bits = [e0, e1, e2, e3, e4, e5, e6, e7, e8, e9, e10, e11, e12, e13, e14][:n_edge_bits(n)]
     p, ops = mk_pipeline("p", 3, n, bits, [[seg_ticks(1)] for _ in range(n)])
+    for op in ops:
+        # the library's edges are the declared ones, in both directions
+        dp = decl_parents(op)
+        if len(op.parents) != len(dp) or any(not any(a is b for b in op.parents) for a in dp):
+            return "C01:stored_parents_differ_from_declared"
+        for par in dp:
+            if not any(c is op for c in par.children):
+                return "C01:parent_does_not_list_child"
     order = list(p.values)
     if len(order) != n:
         return f"C01:iter_len_{len(order)}_of_{n}"
@@ -19,7 +27,7 @@ def dag_iter(n, e0=False, e1=False, e2=False, e3=False, e4=False, e5=False, e6=F
     for op in ops:
         if id(op) not in pos:
             return "C01:iter_misses_operator"
-        for par in op.parents:
+        for par in decl_parents(op):
             if pos[id(par)] > pos[id(op)]:
                 return "C01:iter_child_before_parent"
     # a second iteration gives the same sequence
@@ -33,15 +41,15 @@ def dag_iter(n, e0=False, e1=False, e2=False, e3=False, e4=False, e5=False, e6=F
     if len(listed) != n or any(a is not b for a, b in zip(listed, order)):
         return "C01:get_ops_not_iteration_order"
     for j, op in enumerate(listed):
-        for par in op.parents:
+        for par in decl_parents(op):
             if not any(par is q for q in listed[:j]):
                 return "C01:get_ops_child_before_parent"
     ready = rs.get_ops(ASSIGNABLE_STATES, require_parents_complete=True)
-    roots = [op for op in order if not op.parents]
+    roots = [op for op in order if not decl_parents(op)]
     if len(ready) != len(roots) or any(a is not b for a, b in zip(ready, roots)):
         return "C01:ready_ops_not_roots"
     if want == "multiparent":
-        return "REACHED" if any(len(op.parents) >= 2 for op in ops) else ""
+        return "REACHED" if any(len(decl_parents(op)) >= 2 for op in ops) else ""
     if want == "multiroot":
         return "REACHED" if len(roots) >= 2 else ""
     path_done()
@@ -73,7 +81,7 @@ def container_order(n, e0, e1, e2, e3, e4, e5, o0, o1, o2, o3, pre_done, d0, d1,
     for j in range(n):
         if j < pre_done and j not in pack_idx:
             op = ops[j]
-            if any(par.state() != S.COMPLETED for par in op.parents):
+            if any(par.state() != S.COMPLETED for par in decl_parents(op)):
                 return ""     # that history is impossible
             a0 = Assignment(ops=[op], cpu=1, ram=10, priority=Priority.BATCH_PIPELINE, pool_id=0, pipeline_id="p")
             for _ in range(4):
@@ -89,7 +97,7 @@ def container_order(n, e0, e1, e2, e3, e4, e5, o0, o1, o2, o3, pre_done, d0, d1,
         for op in ops:
             st = op.state()
             if st == S.RUNNING or st == S.COMPLETED:
-                for par in op.parents:
+                for par in decl_parents(op):
                     if par.state() != S.COMPLETED:
                         return True
         return False
@@ -114,7 +122,7 @@ def container_order(n, e0, e1, e2, e3, e4, e5, o0, o1, o2, o3, pre_done, d0, d1,
     ok_order = True
     done = set(j for j in range(n) if j < pre_done and j not in pack_idx)
     for i in pack_idx:
-        for par in ops[i].parents:
+        for par in decl_parents(ops[i]):
             if ops.index(par) not in done:
                 ok_order = False
         done.add(i)
@@ -124,7 +132,7 @@ def container_order(n, e0, e1, e2, e3, e4, e5, o0, o1, o2, o3, pre_done, d0, d1,
         # the run ended (OOM kill) before the offending operator was reached, or it never started
         for i in pack_idx:
             st = ops[i].state()
-            if st in (S.RUNNING, S.COMPLETED) and any(par.state() != S.COMPLETED for par in ops[i].parents):
+            if st in (S.RUNNING, S.COMPLETED) and any(par.state() != S.COMPLETED for par in decl_parents(ops[i])):
                 return "C01:invalid_pack_executed"
     if want == "rejected":
         return "REACHED" if raised else ""
